@@ -1553,3 +1553,66 @@ def signed_result_rule(ctx, rid, scope, minimum):
     if n < minimum:
         from facts import AnalysisBroken
         raise AnalysisBroken('%s: only %d calls of POSIX functions with a -1 error result found' % (rid, n))
+
+
+def _parsed_scalings(fn):
+    """[(multiplication node, name of the parsed local, bounded?)] for integer multiplications of a local that holds the
+    result of strtol/strtoul/strtoll/strtoull"""
+    import re
+    src = {}
+    for nid, d, rhs, op, lhs in fn.assignments():
+        if rhs is not None and d and ':' in d and (fn.nodes[fn.strip(rhs, casts=True)].get('callee') or '') in (
+                'strtol', 'strtoul', 'strtoll', 'strtoull'):
+            src[d] = nid
+    res = []
+    for x, v in sorted(fn.nodes.items()):
+        if v['k'] not in ('BinaryOperator', 'CompoundAssignOperator') or v.get('op') not in ('*', '*=', '<<', '<<='):
+            continue
+        t = v.get('t') or ''
+        if 'float' in t or 'double' in t:
+            continue
+        for side in ('lhs', 'rhs'):
+            o = fn.nodes[fn.strip(v[side], casts=True)]
+            if o.get('k') == 'DeclRefExpr' and o.get('decl') in src:
+                nm = o.get('name')
+                atoms = set((a[0], a[1]) for a in fn.atoms(x)) if fn.block_of(x) is not None else set()
+                upper = any((re.match(r'^\(%s (<|<=) #\d+\)$' % re.escape(nm), k) and p) for k, p in atoms)
+                lower = not o.get('sg') or any((re.match(r'^\(%s (<|<=) #-?\d+\)$' % re.escape(nm), k) and not p) for k, p in atoms)
+                res.append((x, nm, upper and lower))
+    return res, len(src)
+
+
+def parsed_scale_rule(ctx, rid, scope, minimum):
+    """a parsed integer is scaled only after it was bounded: the 64 bit result of strtol/strtoul is not multiplied or shifted in
+    integer arithmetic unless constants bound it from above (and from below if signed) on the way - the unchecked product
+    of a 17 to 19 digit text wraps around and lands inside the range of the field.  Scaling in double (as the data types do)
+    cannot wrap.  Checked against a positive example on every run."""
+    import os
+    import facts
+    from facts import AnalysisBroken
+    sample = os.path.join(os.path.dirname(os.path.dirname(os.path.dirname(os.path.abspath(__file__)))), 'spec', 'samples', 'parsed_scale.cpp')
+    try:
+        d = facts.extract_file(sample, root=os.path.dirname(sample))
+        sfb = facts.FactBase([(sample, d)])
+        hits = [r for f in sfb.functions for r in _parsed_scalings(f)[0] if not r[2]]
+    except Exception as e:     # noqa
+        raise AnalysisBroken('%s: the positive example could not be analysed (%s)' % (rid, e))
+    if len(hits) != 1:
+        raise AnalysisBroken('%s: the positive example is not recognised any more (%d hits)' % (rid, len(hits)))
+    fb = ctx.fb
+    seen = set()
+    n = 0
+    for fn in fb.functions:
+        if not scope(fn) or not fn.nodes or (fn.name, fn.sig) in seen:
+            continue
+        seen.add((fn.name, fn.sig))
+        sc, nsrc = _parsed_scalings(fn)
+        n += nsrc
+        if nsrc:
+            ctx.touch(fn)
+        if nsrc and not sc:
+            ctx.ob(rid, fn, fn.body, True, 'parsed integers in %s' % fn.name.split('::', 1)[-1], '%d result(s) of strtol/strtoul, none scaled in integer arithmetic' % nsrc)
+        for x, nm, ok in sc:
+            ctx.ob(rid, fn, x, ok, 'integer scaling of the parsed number %s' % nm, 'bounded by constants before it is multiplied: %s' % ok)
+    if n < minimum:
+        raise AnalysisBroken('%s: only %d parsed integers found' % (rid, n))
